@@ -68,6 +68,42 @@ Theorem C17_throttle_identity : forall h ss ops c s,
   stream_of c (snd (run h ss ops)) ++ winner (fst (run h ss ops)) c = sdata s.
 Proof. exact throttle_identity_gen. Qed.
 
+(* ---- chains of throttle handlers (head of the list = the handler that wrapped last).  The
+   chain's output respects every stage's own bound, for every schedule of Reads, whatever the other
+   stages are (with or without total limiters, stricter or laxer); the handlers stay in place. *)
+Theorem C17_chain_respects_every_stage : forall hs sess reads t0,
+  Forall handler_ok hs -> Forall (read_ok t0) reads ->
+  map (fun s => fst (fst s)) (chain_run (chain_init hs sess) reads) = hs /\
+  forall h w tr id L T, In (h, w, tr) (chain_run (chain_init hs sess) reads) ->
+    lim_of h id = Some L -> linf L = false -> t0 <= T ->
+    pulled (sel id) T tr * unit L <= lburst L * unit L + lp L * (T - t0 + 1) + lp L * back_sum id tr.
+Proof. exact chain_bound. Qed.
+
+(* what a stage records, it records at the instant the stage below (in the end: the socket) handed
+   the bytes over: the bounds of all stages are about the same instants *)
+Theorem C17_chain_pull_instant : forall h t w o j trdy batch w' e c tt b bs er,
+  ready_time h t w o = Some (trdy, batch) -> read_step h t w (set_j3 o j) = (w', e) ->
+  In (EPull c tt b bs er) e -> tt = trdy + j.
+Proof. exact read_step_pull_time. Qed.
+
+(* non-vacuity: two handlers without total limits, 200000 B/s (burst 200001) wrapped first and
+   1000 B/s burst 500 wrapped last; three Reads of 4096 bytes at t = 1 s: the socket is asked for
+   500 bytes each time, at 1 s, 1.5 s and 2 s, and both stages record exactly these pulls *)
+Definition ch_lax : tconfig :=
+  {| rp := 200000; rq := 1; rmax := false; rburst := 0; trp := 0; trq := 1; trmax := false; tburst := 0; latency := 0 |}.
+Definition ch_strict : tconfig :=
+  {| rp := 1000; rq := 1; rmax := false; rburst := 500; trp := 0; trq := 1; trmax := false; tburst := 0; latency := 0 |}.
+Definition ch_op : op := {| oc := 0; olen := 4096; odelay := 0; oj2 := 0; oj3 := 0; oavail := 4096; oerr := 0 |}.
+Definition ch_short (s : stage) : list (Z * Z * Z) :=
+  flat_map (fun e => match e with EPull _ t b bs _ => [(t, b, Z.of_nat (length bs))] | _ => [] end) (snd s).
+Example C17_chain_example :
+  exists h1 h2, provision ch_strict = Some h1 /\ provision ch_lax = Some h2 /\
+    map ch_short (chain_run (chain_init [h1; h2] [{| sstart := 0; sjit := 0; scancel := false; sdata := repeat x45 5000 |}])
+                            [(1000000000, ch_op, 0); (1000000000, ch_op, 0); (1500000000, ch_op, 0)])
+    = [[(1000000000, 500, 500); (1500000000, 500, 500); (2000000000, 500, 500)];
+       [(1000000000, 500, 500); (1500000000, 500, 500); (2000000000, 500, 500)]].
+Proof. eexists. eexists. split; [vm_compute; reflexivity|]. split; [vm_compute; reflexivity|]. vm_compute. reflexivity. Qed.
+
 (* bytes the connection already holds when throttle runs (prefetched by matchers) come first and
    complete: Reads are served from that buffer until it is empty (never more than it held), and
    only then reach the throttled conn, whose stream C17_throttle_identity describes *)
@@ -192,6 +228,9 @@ Print Assumptions C17_throttle_bound_every_schedule.
 Print Assumptions C17_throttle_bound_total_every_schedule.
 Print Assumptions C17_first_read_after_latency.
 Print Assumptions C17_throttle_identity.
+Print Assumptions C17_chain_respects_every_stage.
+Print Assumptions C17_chain_pull_instant.
+Print Assumptions C17_chain_example.
 Print Assumptions C17_prefetched_first.
 Print Assumptions C17_read_within_batch.
 Print Assumptions C17_provision_burst_positive.
